@@ -113,11 +113,13 @@ struct ConsSpec {
     }
     // formulation group of each equation, order: holonomic rows, nonholonomic rows, acceleration-only rows
     std::string rowGroups() const { int mp, mv, ma; counts(mp, mv, ma); std::string g = typeInfo(type).rowGroups; if (type == Custom && flavour == 1) g = "H"; return g.substr(0, mp + mv + ma); }
+    // velocity error (incl. d/dt perr) affine in u: one Newton step of velocity projection is exact
+    bool affineInU() const { return !(type == SpeedCoupler && c[5] != 0); }
     bool twoBody() const { return !typeInfo(type).coordinateBased || (type == Custom && flavour == 1); }
     // verr (incl. d/dt perr) homogeneous in u and time independent: workless in the sense of C08's power clause
     bool homogeneousInU() const {
         switch (type) { case ConstantSpeed: return value == 0; case ConstantAcceleration: return false; case PrescribedMotion: return c[1] == 0 && c[2] == 0 && c[3] == 0;
-            case SpeedCoupler: return c[0] == 0 && c[6] == 0; case Custom: return flavour == 1; default: return true; }
+            case SpeedCoupler: return c[6] == 0 && c[5] == 0; case Custom: return flavour == 1; default: return true; }
     }
     void describe(std::ostream& o) const {
         o.precision(17);
@@ -242,7 +244,8 @@ inline ConsSpec decodeConstraint(const pbt::Seg& seg, const mbgen::ModelSpec& ms
         if (allowed.empty()) allowed.push_back(Ball);
         c.type = allowed[r.pick((int)allowed.size())]; }
     c.b1 = r.pick(nb + 1); c.b2 = (c.b1 + 1 + r.pick(nb)) % (nb + 1); c.b3 = r.pick(nb + 1);
-    c.p1 = mbgen::readVec3(r, -1, 1); c.p2 = mbgen::readVec3(r, -1, 1) + Vec3(0.3, 0.5, 0.2);   // offset: the all-zero unit is not a degenerate (coincident-point) case
+    // offsets: the all-zero unit must not be a degenerate case (coincident points, a rod through the centre of the default Pin joint)
+    c.p1 = mbgen::readVec3(r, -1, 1) + Vec3(-0.4, 0.3, 0.6); c.p2 = mbgen::readVec3(r, -1, 1) + Vec3(0.3, 0.5, 0.2);
     c.a1 = readUnit(r); c.a2 = readUnit(r);
     c.R1 = mbgen::readRotation(r); c.R2 = mbgen::readRotation(r);
     c.length = 0.3 + 1.7 * r.unit(); c.angle = 0.4 + (3.141592653589793 - 0.8) * r.unit(); c.value = r.real(-1, 1); c.height = r.real(-1, 1);
